@@ -120,6 +120,11 @@ func (g *c17Gen) group(depth int) *gen.Node {
 		n.Quote = g.rng.Intn(4) == 0
 	case g.numbers && g.rng.Intn(4) == 0:
 		n.Num = []int{1, 2, 3, 5, 7, 12, 30}[g.rng.Intn(7)]
+		// the same number written (?<05>..) or (?'5'..)
+		if g.rng.Intn(3) == 0 {
+			n.Zeros = 1 + g.rng.Intn(2)
+		}
+		n.Quote = g.rng.Intn(5) == 0
 	}
 	n.Kids = []*gen.Node{g.seq(depth)}
 	return n
@@ -319,6 +324,26 @@ func numberingLaws(root *gen.Node, cfg c17Config, st func(string)) (detail strin
 			if err != nil || !ok || (bad && want != "") {
 				return fmt.Sprintf("pattern+%s: matches input+groupText=%v, matches input+\"~\"=%v; the back-reference should designate the group capturing %q", probe, ok, bad, want), src
 			}
+			// a conditional on the group, by number and by name, takes the branch of a group that
+			// has captured
+			if !cfg.ecma {
+				st("conditional-refs")
+				for _, ref := range []string{strconv.Itoa(n), names[i]} {
+					if ref == "" {
+						continue
+					}
+					probe := "(?(" + ref + ")~|!)"
+					re4, err := mon.Compile(src+probe, cfg.opts, cfg.copts)
+					if err != nil {
+						return fmt.Sprintf("appending the conditional %s is rejected: %v", probe, err), src
+					}
+					yes, err := re4.MatchString(input + "~")
+					no, _ := re4.MatchString(input + "!")
+					if err != nil || !yes || no {
+						return fmt.Sprintf("pattern+%s: matches input+\"~\"=%v, input+\"!\"=%v (err %v); group %d has captured, so the first branch is the one to take", probe, yes, no, err, n), src
+					}
+				}
+			}
 		}
 	}
 	// a balancing group appended to the pattern pops the group it designates (by number and by
@@ -379,6 +404,35 @@ func replayC17(w core.Witness) string {
 		for _, nm := range []string{"", "18446744073709551617"} {
 			if n := re.GroupNumberFromName(nm); n != -1 {
 				return fmt.Sprintf("(a)(b): GroupNumberFromName(%q) = %d", nm, n)
+			}
+		}
+		return ""
+	case "leading-zero-number":
+		// (?<01>b) is group number 1 in the pre-scan and in the parse alike
+		for _, c := range []struct {
+			p, plain string
+			o        regexp2.RegexOptions
+		}{{`(?<01>b)(c)`, `(?<1>b)(c)`, regexp2.None}, {`(?<05>b)`, `(?<5>b)`, regexp2.None}, {`(a)(?P<01>b)`, `(a)(?P<1>b)`, regexp2.RE2}, {`(?'007'b)(c)`, `(?'7'b)(c)`, regexp2.None}} {
+			re, err := regexp2.Compile(c.p, c.o)
+			if err != nil {
+				return c.p + ": " + err.Error()
+			}
+			re2, err := regexp2.Compile(c.plain, c.o)
+			if err != nil {
+				return c.plain + ": " + err.Error()
+			}
+			if got, want := fmt.Sprint(re.GetGroupNames(), re.GetGroupNumbers()), fmt.Sprint(re2.GetGroupNames(), re2.GetGroupNumbers()); got != want {
+				return c.p + ": names and numbers " + got + ", but " + c.plain + " gives " + want
+			}
+		}
+		if re, err := regexp2.Compile(`x(?P<0>a)y`, regexp2.RE2); err == nil {
+			m, _ := re.FindStringMatch("xay")
+			return "x(?P<0>a)y compiles under RE2 (group 0 is the whole match): match " + mon.ObsAll(m)
+		}
+		re, err := regexp2.Compile(`(?<01>b)(c)`, regexp2.None, regexp2.OptionMaintainCaptureOrder())
+		if err == nil {
+			if _, err = re.FindStringMatch("bc"); err != nil {
+				return err.Error()
 			}
 		}
 		return ""
@@ -463,7 +517,7 @@ func runC17(r *core.Run) int {
 	})
 	r.Extras["bounds"] = map[string]any{"patterns": nPat, "configs": []string{"default", "MaintainCaptureOrder", "ECMAScript", "RE2", "ExplicitCapture", "RE2+MaintainCaptureOrder"}, "nesting": "2-3", "groups_per_pattern": "up to ~12"}
 	return r.Finish(
-		"patterns built from random nestings of unnamed, named (incl. duplicate names and (?'n') spelling), explicitly numbered (sparse: 1,2,3,5,7,12,30), non-capturing, atomic, look-ahead and (?n)/(?-n) scoped groups over pairwise distinct literals, so that every group captures a text unique to it; under default / MaintainCaptureOrder / ECMAScript / RE2 (with the (?P<name>) / (?P<5>) spellings) / ExplicitCapture / RE2+MaintainCaptureOrder; lookups of numbers and names that designate no group must fail; an appended balancing group (?<-n>) / (?<-name>) must pop exactly the designated group; evaluation = one (pattern,configuration) for which the name and number lists, the four lookups, Match.Groups order, GroupByName/GroupByNumber, $n / ${name} in Replace and appended \\k<n> / \\k<name> back-references are all compared with the documented numbering rule computed on the AST; non-trivial = distinct (pattern,configuration) with at least two groups",
+		"patterns built from random nestings of unnamed, named (incl. duplicate names and (?'n') spelling), explicitly numbered (sparse: 1,2,3,5,7,12,30, also written with leading zeros (?<05>..) and quoted (?'5'..)), non-capturing, atomic, look-ahead and (?n)/(?-n) scoped groups over pairwise distinct literals, so that every group captures a text unique to it; under default / MaintainCaptureOrder / ECMAScript / RE2 (with the (?P<name>) / (?P<5>) spellings) / ExplicitCapture / RE2+MaintainCaptureOrder; lookups of numbers and names that designate no group must fail; an appended balancing group (?<-n>) / (?<-name>) must pop exactly the designated group; an appended conditional (?(n)~|!) / (?(name)~|!) must take the branch of a group that has captured; evaluation = one (pattern,configuration) for which the name and number lists, the four lookups, Match.Groups order, GroupByName/GroupByNumber, $n / ${name} in Replace and appended \\k<n> / \\k<name> back-references are all compared with the documented numbering rule computed on the AST; non-trivial = distinct (pattern,configuration) with at least two groups",
 		[]string{"the numbering rule (gen.Number) is harness code written from the documentation", "ECMAScript: unnamed groups have no name (documented)"},
 		map[string]int64{"evaluations": 10000, "distinct_nontrivial": 5000, "law_backrefs": 10000, "law_replacement-refs": 10000})
 }
